@@ -46,7 +46,7 @@ Section AlignParams.
     let e (i j : nat) := match j with O => x3 (mrow m i) | S O => y3 (mrow m i) | _ => z3 (mrow m i) end in
     let sin_y := e 0%nat 2%nat in
     if n1 - eps <? sin_y then mk3 (natan2 (e 1%nat 0%nat) (e 1%nat 1%nat)) (npi / n2) n0
-    else if sin_y <? eps - n1 then mk3 (- natan2 (e 1%nat 0%nat) (e 1%nat 1%nat)) (- (npi / n2)) n0
+    else if sin_y <? eps - n1 then mk3 (- natan2 (e 1%nat 0%nat) (e 1%nat 1%nat)) ((- npi) / n2) n0
     else mk3 (natan2 (- e 1%nat 2%nat) (e 2%nat 2%nat)) (nasin sin_y) (natan2 (- e 0%nat 1%nat) (e 0%nat 0%nat)).
   Definition from_rotation (eps : num) (m : M3) : rotmats :=
     let w := to_wpr eps m in from_euler (x3 w) (y3 w) (z3 w).
